@@ -18,7 +18,7 @@ def run(ctx, rep):
         return
     rule_error_discipline(F, rep)
     rule_io_protocol(F, rep, "ordering")
-    rule_cache_protocol(F, rep, "cache-writers")
+    rule_cache_protocol(F, rep, "cache-writers", keys=None)
     # ---- no residue: who writes the long-lived state
     n = 0
     for fn in stream_fns(F):
